@@ -66,9 +66,10 @@ def add (r : Ref) (now : Int) (k klen : Nat) (v : Int) (vsz : Nat) (ttl : Int) :
 def setLimit (r : Ref) (n : Nat) : Ref := { r with items := fitPrefix r.items n, limit := n }
 
 def step (r : Ref) (now : Int) : Op → Ref × Int × Res
-  | .add k klen v vsz ttl => let (r', b) := r.add now k klen v vsz ttl; (r', now, .added b)
-  | .addDefault k klen v vsz => let (r', b) := r.add now k klen v vsz r.defaultTtl; (r', now, .added b)
-  | .get k => let (r', v) := r.get now k; (r', now, .got v)
+  | .add k klen v vsz ttl => ((r.add now k klen v vsz ttl).1, now, .added (r.add now k klen v vsz ttl).2)
+  | .addDefault k klen v vsz =>
+    ((r.add now k klen v vsz r.defaultTtl).1, now, .added (r.add now k klen v vsz r.defaultTtl).2)
+  | .get k => ((r.get now k).1, now, .got (r.get now k).2)
   | .del k => (r.del k, now, .none)
   | .setLimit n => (r.setLimit n, now, .none)
   | .setClock t => (r, t, .none)
@@ -79,8 +80,7 @@ def observe (res : Res) (r : Ref) : Obs :=
 def run : Ref → Int → List Op → List Obs
   | _, _, [] => []
   | r, now, op :: rest =>
-    let (r', now', res) := r.step now op
-    observe res r' :: run r' now' rest
+    observe (r.step now op).2.2 (r.step now op).1 :: run (r.step now op).1 (r.step now op).2.1 rest
 
 end Ref
 
@@ -128,9 +128,10 @@ def add (s : Stamped) (now : Int) (k klen : Nat) (v : Int) (vsz : Nat) (ttl : In
 def setLimit (s : Stamped) (n : Nat) : Stamped := { s with items := sfit s.items n, limit := n }
 
 def step (s : Stamped) (now : Int) : Op → Stamped × Int × Res
-  | .add k klen v vsz ttl => let (s', b) := s.add now k klen v vsz ttl; (s', now, .added b)
-  | .addDefault k klen v vsz => let (s', b) := s.add now k klen v vsz s.defaultTtl; (s', now, .added b)
-  | .get k => let (s', v) := s.get now k; (s', now, .got v)
+  | .add k klen v vsz ttl => ((s.add now k klen v vsz ttl).1, now, .added (s.add now k klen v vsz ttl).2)
+  | .addDefault k klen v vsz =>
+    ((s.add now k klen v vsz s.defaultTtl).1, now, .added (s.add now k klen v vsz s.defaultTtl).2)
+  | .get k => ((s.get now k).1, now, .got (s.get now k).2)
   | .del k => (s.del k, now, .none)
   | .setLimit n => (s.setLimit n, now, .none)
   | .setClock t => (s, t, .none)
